@@ -15,6 +15,11 @@ package genbank
 // "Written back": BuildLocationString is judged on the structures assembled
 // directly and on the structures parseLocation built from the text (the tree
 // alone, no cached text), by the strict reader and the evaluator below.
+// AddFeature's parent link is also exercised on a history of two sequences: a
+// feature that already belongs to one sequence (the value handed to
+// A.AddFeature, or the copy taken out of A.Features) is attached to another
+// with B.AddFeature and must then read its location against B's bases (class
+// feature-moved-between-sequences, under getFeatureSequence/post/eval-structure).
 
 import (
 	"errors"
@@ -383,6 +388,150 @@ func c02GetSequence(parent string, loc poly.Location) string {
 	f := poly.Feature{Type: "misc_feature", SequenceLocation: loc}
 	seq.AddFeature(&f)
 	return seq.Features[len(seq.Features)-1].GetSequence()
+}
+
+// c02MovedClass names the history in which a feature that already belongs to
+// one sequence is attached to another.
+const c02MovedClass = "feature-moved-between-sequences"
+
+// c02MovedCheck judges getFeatureSequence/post/eval-structure on a history:
+// the structure assembled for x is put on a Sequence holding parentA with
+// A.AddFeature, then the same annotation is put on a Sequence holding parentB
+// with B.AddFeature: either the Feature value that was handed to A.AddFeature
+// (viaTable = false) or the copy taken out of A.Features (viaTable = true), as
+// when annotations are carried over from one record to another. The feature
+// stored in B must report the INSDC reading of x on parentB, and the one that
+// stays in A the reading on parentA. applicable = x has a structure and lies
+// inside both parents, and the plain (one sequence) reading on A is right (if
+// not, that is the business of the checks above, not of the history);
+// differs = the readings on the two parents are different texts.
+func c02MovedCheck(parentA, parentB string, x *c02Node, viaTable bool) (applicable, differs bool, problem string) {
+	loc, ok := c02ToLoc(x)
+	if !ok {
+		return false, false, ""
+	}
+	wantA, errA := c02EvalNode(parentA, x)
+	wantB, errB := c02EvalNode(parentB, x)
+	if errA != nil || errB != nil {
+		return false, false, ""
+	}
+	var gotA, gotB, stillA string
+	step := "A.AddFeature"
+	if p := c02Try(func() {
+		first := poly.Sequence{Sequence: parentA}
+		second := poly.Sequence{Sequence: parentB}
+		f := poly.Feature{Type: "misc_feature", SequenceLocation: loc}
+		first.AddFeature(&f)
+		step = "A.Features[0].GetSequence"
+		gotA = first.Features[0].GetSequence()
+		carried := &f
+		if viaTable {
+			c := first.Features[0]
+			carried = &c
+		}
+		step = "B.AddFeature"
+		second.AddFeature(carried)
+		step = "B.Features[0].GetSequence"
+		gotB = second.Features[len(second.Features)-1].GetSequence()
+		step = "A.Features[0].GetSequence after B.AddFeature"
+		stillA = first.Features[0].GetSequence()
+	}); p != "" {
+		if step == "A.AddFeature" || step == "A.Features[0].GetSequence" {
+			return false, false, ""
+		}
+		return true, wantA != wantB, step + ": " + p
+	}
+	if gotA != wantA {
+		return false, false, ""
+	}
+	if gotB != wantB {
+		problem = "B.Features[0].GetSequence() = " + c02Clip(gotB) + ", the location read on B's bases = " + c02Clip(wantB)
+		if gotB == wantA {
+			problem += " (what was returned is the reading on A's bases)"
+		}
+		return true, wantA != wantB, problem
+	}
+	if stillA != wantA {
+		return true, wantA != wantB, "after B.AddFeature the feature that stays in A reports " + c02Clip(stillA) + ", the location read on A's bases = " + c02Clip(wantA)
+	}
+	return true, wantA != wantB, ""
+}
+
+// checkMoved runs the history on one expression and two parents and records it
+// under the structure clause.
+func (r *c02Runs) checkMoved(parentA, parentB string, x *c02Node, viaTable bool) {
+	ok, differs, problem := c02MovedCheck(parentA, parentB, x, viaTable)
+	if !ok {
+		return
+	}
+	how := "value handed to A.AddFeature"
+	if viaTable {
+		how = "copy out of A.Features"
+	}
+	text := c02Print(x)
+	v := r.structEval
+	v.Case("moved "+strconv.Itoa(len(parentA))+">"+strconv.Itoa(len(parentB))+" "+how+":"+text, differs)
+	if problem == "" || r.saturated(v, c02MovedClass) {
+		return
+	}
+	v.Fail(c02MovedClass, "parent A="+c02Clip(parentA)+" parent B="+c02Clip(parentB)+" location="+text+" ; A.AddFeature(&f), then B.AddFeature of the "+how, problem)
+}
+
+// c02MovedShapes runs the history over every expression shape with at most
+// maxOps operators on the 6-base parents: leaves from the 27 unmarked forms
+// while 27^leaves <= limit, else from the first 12/8/6/4 of the reduced set.
+func c02MovedShapes(r *c02Runs, parentA string, parentsB []string, maxOps, limit int, alphas [][]c02Leaf) (cases int) {
+	for ops := 0; ops <= maxOps; ops++ {
+		for _, s := range c02Shapes(ops, 3) {
+			x := c02Clone(s)
+			leaves := c02Leaves(x, nil)
+			alpha := alphas[len(alphas)-1]
+			for _, a := range alphas {
+				if c02Pow(len(a), len(leaves)) <= limit {
+					alpha = a
+					break
+				}
+			}
+			idx := make([]int, len(leaves))
+			for {
+				for i, l := range leaves {
+					alpha[idx[i]].set(l)
+				}
+				for _, pb := range parentsB {
+					for _, viaTable := range []bool{false, true} {
+						r.checkMoved(parentA, pb, x, viaTable)
+						cases++
+					}
+				}
+				i := len(idx) - 1
+				for ; i >= 0; i-- {
+					idx[i]++
+					if idx[i] < len(alpha) {
+						break
+					}
+					idx[i] = 0
+				}
+				if i < 0 {
+					break
+				}
+			}
+		}
+	}
+	return cases
+}
+
+// c02MaxPos is the largest position a location names.
+func c02MaxPos(x *c02Node) int {
+	m := x.m
+	if x.n > m {
+		m = x.n
+	}
+	for _, k := range x.kids {
+		if km := c02MaxPos(k); km > m {
+			m = km
+		}
+	}
+	return m
 }
 
 // c02ParseCheck runs parseLocation once on the printed expression and judges
@@ -1159,6 +1308,8 @@ func TestVerifC02(t *testing.T) {
 		nRandom = 1000000
 	}
 
+	movedB := []string{"CAAGTC", "CAAGTCTGG", "CAAG"} // parents a feature is moved to: every base differs from parent6's at the same place
+	movedLimit := 2000
 	full := c02AlphaFull(6, true)   // 90 leaf forms: 6 single bases, 21 spans x {none,<,>,<>}
 	plain := c02AlphaFull(6, false) // 27 leaf forms without markers
 	red12 := c02AlphaFromText(c02Reduced...)
@@ -1179,7 +1330,9 @@ func TestVerifC02(t *testing.T) {
 		parsePartial: newVerifRun("C02", "io/genbank.parseLocation/post/partial",
 			domain("FivePrimePartial/ThreePrimePartial at the leaves of parseLocation(t), in order, equal the < and > markers of the spans of t; evaluated where parseLocation returns a structure with as many leaves as t (panics and lost operands count under post/eval only); non-trivial = t has a marker")),
 		structEval: newVerifRun("C02", "poly.getFeatureSequence/post/eval-structure",
-			domain("structure assembled directly as poly.Location (Complement flag = complement of that node, Join + SubLocations, leaf Start 0-based .. End exclusive, partial flags on leaves); GetSequence after AddFeature equals the independent evaluation; complement applied directly to a complement has no form in that convention and is left out; non-trivial = has an operator")),
+			domain("structure assembled directly as poly.Location (Complement flag = complement of that node, Join + SubLocations, leaf Start 0-based .. End exclusive, partial flags on leaves); GetSequence after AddFeature equals the independent evaluation; complement applied directly to a complement has no form in that convention and is left out; non-trivial = has an operator. "+
+				"Also a history of two sequences (class "+c02MovedClass+"): the structure is put on a Sequence holding parent A with A.AddFeature, then the same annotation is attached to a Sequence holding parent B with B.AddFeature, once as the Feature value that was handed to A.AddFeature and once as the copy taken out of A.Features; demanded: B.Features[0].GetSequence() equals the independent evaluation on B's bases and A.Features[0].GetSequence() afterwards still the one on A's bases. "+
+				"Exhaustively for every expression shape with <= 2 operators on A = "+parent6+" and B in {"+strings.Join(movedB, ", ")+"} (same length with every base different, longer, shorter; only locations inside both parents), leaves from the 27 unmarked forms or the first 12/8/6/4 of the reduced set so that alphabet^leaves <= "+strconv.Itoa(movedLimit)+"; and for every tree of the random part with a second seeded ACGT parent B, in one half of the cases of A's length, else of a length drawn between the largest position the location names and 2000, alternately the value handed over and the copy out of the table; such a case is keyed 'moved ...' and is non-trivial when the readings on A and B differ")),
 		build: newVerifRun("C02", "io/genbank.BuildLocationString/post/insdc",
 			domain("BuildLocationString of the same structures is accepted by the strict independent INSDC reader and denotes the same bases and the same partial ends (< and > per span); complement of complement left out as above; non-trivial = has an operator or a marker. "+
 				"Also, for every expression t of the domain (complement of complement included, nested joins and complements to depth 4 in the random part, every nesting of <= 3 operators in the exhaustive part), the structure parseLocation(t) written back with BuildLocationString (the tree alone, no cached text): that text must be accepted by the same reader and denote the bases and the partial ends of t (the notation may differ: a single base n may come back as n..n, complement(complement(e)) as e); evaluated where parseLocation returns; one case per expression, judged both ways; "+
@@ -1282,6 +1435,14 @@ func TestVerifC02(t *testing.T) {
 	close(ch)
 	wg.Wait()
 
+	// history: a feature that belongs to one sequence is attached to another, smallest first
+	for i := range movedB[0] {
+		if movedB[0][i] == parent6[i] {
+			t.Fatalf("parent %s does not differ from %s at base %d", movedB[0], parent6, i+1)
+		}
+	}
+	c02MovedShapes(r, parent6, movedB, 2, movedLimit, [][]c02Leaf{plain, red12, red12[:8], red12[:6], red12[:4]})
+
 	// GenBank text: long joins, from one line to three and more, smallest first
 	seed := verifSeed()
 	for _, plen := range textParents {
@@ -1297,6 +1458,7 @@ func TestVerifC02(t *testing.T) {
 		go func(w int) {
 			defer wg.Done()
 			rng := rand.New(rand.NewSource(seed*1000003 + int64(w)))
+			rngB := rand.New(rand.NewSource(seed*1000003 + 7777 + int64(w))) // second parents: a stream of their own
 			for i := 0; i < nRandom/workers; i++ {
 				plen := c02RandLen(rng)
 				if i == 0 {
@@ -1309,6 +1471,12 @@ func TestVerifC02(t *testing.T) {
 				x := c02RandTree(rng, plen, depth, true)
 				r.check(parent, x, nil)
 				r.checkText(parent, x)
+				lenB := plen
+				if rngB.Intn(2) == 0 {
+					lo := c02MaxPos(x)
+					lenB = lo + rngB.Intn(2000-lo+1)
+				}
+				r.checkMoved(parent, c02RandParent(rngB, lenB), x, i%2 == 0)
 			}
 		}(w)
 	}
